@@ -4,6 +4,8 @@ import (
 	"fmt"
 	"sort"
 	"strings"
+
+	"github.com/flosch/pongo2/v6"
 )
 
 func init() { props["C09"] = runC09 }
@@ -86,9 +88,10 @@ func c09Ctx() gctx {
 }
 
 type c09Gen struct {
-	rg      *rng
-	loops   []string // loop variable names, outermost first
-	inEmpty bool     // inside an {% empty %} branch: no forloop references, no nested loops
+	rg        *rng
+	loops     []string // loop variable names, outermost first
+	inEmpty   bool     // inside an {% empty %} branch: no forloop references, no nested loops
+	emptyRefs bool     // ... unless this is set (programs compared with the model only, not the reference)
 }
 
 func (g *c09Gen) val() cval {
@@ -97,7 +100,7 @@ func (g *c09Gen) val() cval {
 		case 0:
 			return cval{kind: 'v', depth: g.rg.intn(len(g.loops))}
 		case 1:
-			if !g.inEmpty {
+			if !g.inEmpty || g.emptyRefs {
 				return cval{kind: 'c', depth: g.rg.intn(len(g.loops))}
 			}
 		}
@@ -118,11 +121,11 @@ func (g *c09Gen) cond() ccond {
 	case 0:
 		return ccond{kind: "truthy", v: g.val()}
 	case 1:
-		if len(g.loops) > 0 && !g.inEmpty {
+		if len(g.loops) > 0 && (!g.inEmpty || g.emptyRefs) {
 			return ccond{kind: g.rg.pick([]string{"first", "last"}), v: cval{depth: g.rg.intn(len(g.loops))}}
 		}
 	case 2:
-		if len(g.loops) > 0 && !g.inEmpty {
+		if len(g.loops) > 0 && (!g.inEmpty || g.emptyRefs) {
 			return ccond{kind: "odd", v: cval{depth: g.rg.intn(len(g.loops))}}
 		}
 	case 3:
@@ -154,7 +157,7 @@ func (g *c09Gen) node(d int) *cnode {
 		}
 		return &cnode{kind: "text", text: "t"}
 	case 3:
-		if len(g.loops) > 0 && !g.inEmpty {
+		if len(g.loops) > 0 && (!g.inEmpty || g.emptyRefs) {
 			return &cnode{kind: "pfield", text: g.rg.pick([]string{"Counter", "Counter0", "Revcounter", "Revcounter0", "First", "Last"}), a: cval{depth: g.rg.intn(len(g.loops))}}
 		}
 		return &cnode{kind: "text", text: "f"}
@@ -183,7 +186,7 @@ func (g *c09Gen) node(d int) *cnode {
 		}
 		return n
 	case 8, 9, 10:
-		if g.inEmpty {
+		if g.inEmpty && !g.emptyRefs {
 			return &cnode{kind: "text", text: "e"}
 		}
 		n := &cnode{kind: "for", vname: fmt.Sprintf("v%d", len(g.loops))}
@@ -215,7 +218,7 @@ func (g *c09Gen) node(d int) *cnode {
 		}
 		return n
 	case 11:
-		if len(g.loops) == 0 || g.inEmpty {
+		if len(g.loops) == 0 || (g.inEmpty && !g.emptyRefs) {
 			return &cnode{kind: "text", text: "c"}
 		}
 		if g.rg.chance(1, 2) {
@@ -594,6 +597,14 @@ func runC09(r *run) {
 		}
 		for i := 0; i < n; i++ {
 			g := &c09Gen{rg: rg.fork(uint64(i))}
+			if i%5 == 4 {
+				// what forloop means inside an empty branch, and loops nested in one: pongo2's own
+				// reading (the reference interpreter follows Django's), compared with the model
+				g.emptyRefs = true
+				prog := g.body(4)
+				emit(caseT{"render", w.args("{% autoescape off %}"+prNodes(prog, nil)+"{% endautoescape %}", ctx)})
+				continue
+			}
 			prog := g.body(4)
 			src := "{% autoescape off %}" + prNodes(prog, nil) + "{% endautoescape %}"
 			it := &rinterp{cyc: map[*cnode]int{}, ifchV: map[*cnode]*rval{}, ifchC: map[*cnode]*string{}}
@@ -678,6 +689,19 @@ func runC09(r *run) {
 		}
 		if strings.Contains(src, "{% for ") {
 			r.nontrivial(c.args[0])
+		}
+		if strings.Contains(src, "{% cycle") || strings.Contains(src, "{% ifchanged") || strings.Contains(src, "{% for") {
+			// what cycle and ifchanged remember belongs to one execution: a compiled template gives
+			// the same on every execution
+			if tpl, err := pongo2.FromString(src); err == nil {
+				for k := 0; k < 3; k++ {
+					out, xerr, p := execVariant(tpl, ctx.goContext(), k)
+					if p != nil || (xerr != nil) != (o.err != nil) || (xerr == nil && out != o.out) {
+						r.reject(id, "a compiled template does not render the same on every execution", map[string]any{"template": src, "execution": k + 1, "observed": out, "first": o.out})
+						return
+					}
+				}
+			}
 		}
 		if len(c.args) > 9 {
 			want := obsOK(unhx(c.args[9]))
